@@ -215,6 +215,10 @@ def gen_state(rng, tree, date, gen):
                 st[f] = str(int(st[f]) or 1)
         elif f in ("tag", "pytag"):
             st["tag"] = rng.choice(gen.TAGS)
+            # `preview` is a tag the TAG recogniser accepts (a hand-written current version) although --tag does not offer it;
+            # it has no PEP 440 spelling of its own (it maps to rc), so it only makes sense where the long tag is shown
+            if "TAG" in parts_of(tree) and rng.random() < 0.1:
+                st["tag"] = "preview"
     if st["tag"] == "final":
         st["num"] = 0           # a final release has no release number
     return st
